@@ -99,9 +99,10 @@ def run(ctx, prop, lanes=None, depth=None):
         else:
             survived.append(m)
     ctx.mutants_killed.extend("machine:" + m for m in killed)
-    if survived and ctx.tier == "thorough" and all(v["ok"] for v in mine):
-        # (when programs are rejected the implementation itself may behave like the wrong variant: report those)
-        raise D.Inconclusive("machine: the programs charged to %s do not distinguish the reference semantics from the wrong variant(s) %s" % (prop, survived))
+    if survived and not killed and ctx.tier == "thorough" and all(v["ok"] for v in mine):
+        # not one wrong variant is noticed: the lanes of this property are dead.  (A single survivor is recorded in the
+        # evidence; when programs are rejected the implementation itself may behave like the variant: those are reported.)
+        raise D.Inconclusive("machine: the programs charged to %s do not distinguish the reference semantics from any of the wrong variants %s" % (prop, survived))
     stats = {"machine_programs": len(obs), "machine_wrong_variants_not_distinguished": survived, "machine_programs_charged_to_property": len(mine),
              "machine_programs_unconstrained": sum(1 for v in verdicts if v.get("open")),
              "machine_rejections_derived": derived, "machine_rejections_of_other_properties": others,
